@@ -13,6 +13,20 @@ def plain_text(rng, lo=0, hi=40):
     return "".join(rng.choice(PLAIN) for _ in range(rng.randint(lo, hi)))
 
 
+def periodic_text(rng):
+    """Repetitive text (the same citation-like unit many times, with small variations): legal documents
+    repeat citations, and repetition is where a non-minimal diff shows."""
+    unit = "".join(rng.choice(PLAIN) for _ in range(rng.randint(4, 12)))
+    out = []
+    for _ in range(rng.randint(4, 14)):
+        u = unit
+        if rng.random() < 0.2:
+            i = rng.randrange(len(u))
+            u = u[:i] + rng.choice(PLAIN) + u[i + 1:]
+        out.append(u)
+    return "".join(out)
+
+
 def source_from(rng, p, rate=0.15):
     """Insert foreign material; returns (source, pos) with pos[i] = index of
     plain char i in source."""
